@@ -1,6 +1,7 @@
 import Witverif.Async.Script
 import Witverif.Async.SubtaskSpec
 import Witverif.Async.WaitableSpec
+import Witverif.Async.Refine
 import Drivers.Util
 /-! Driver for the async runtime models, executable `m_async`.
 Request line:  a script line of harness/rt-native engine `script`
@@ -8,12 +9,15 @@ Request line:  a script line of harness/rt-native engine `script`
                optionally followed by a TAB and the implementation's trace line (only the part before
                a second TAB, which carries the panic message, is read).
 Answer line:   the model's predicted trace (`-` for modes the model does not predict), and — when an
-               implementation trace was supplied — `\tspec=ok` or `\tspec=fail:<class>@<call>[,…]`:
+               implementation trace was supplied — `\tspec=ok` or `\tspec=fail:<class>@<call|h<handle>|->[#<token index>][,…]`:
                the spec side evaluated on the IMPLEMENTATION's trace:
                  * `SubtaskSpec.run/complete` for every call of the script (C21 classes `lists-*`,
                    `owns-*`, `lift-*`, `handle-*`, `cancel-*`, `area-*`, `call-order`),
                  * `WaitableSpec.run/complete` for every waitable handle + clone/drop balance per task
                    (C18 classes `waitable:<clause>`),
+                 * `Refine.replayCall` / `Refine.replayOp`: the proved step functions `CallSys.step` (C21) and
+                   `GSys.step subtaskOps` (C18) driven along the trace, label by label; their events must be
+                   the trace's (classes `callsys:diverges`, `gsys:diverges`; cabi modes),
                  * `Host.follow`: every recorded host answer is legal (classes `host:<rule>`),
                  * ledger anomalies / host traps (`anomaly:<token>`), leak and allocator errors from
                    the end token (`leak`, `alloc-errors`), `panic`. -/
@@ -66,27 +70,48 @@ def parseScript (line : String) : Option Script :=
     some ⟨mode, calls, body, dirs⟩
   | _ => none
 
+/-- run a monitor step by step; on rejection report the class and the index of the rejected token -/
+def runIdx {σ : Type} (step : σ → Ev → Except String σ) (init : σ) (tr : List Ev) : Except (String × Nat) σ :=
+  let rec go (m : σ) (i : Nat) : List Ev → Except (String × Nat) σ
+    | [] => .ok m
+    | e :: es => match step m e with
+      | .ok m' => go m' (i + 1) es
+      | .error c => .error (c, i)
+  go init 0 tr
+
 def specVerdict (sc : Script) (impl : List Ev) : List String :=
+  let stopped := impl.any (fun e => e == .panic || e == .abort)
   let perCall := sc.calls.flatMap fun c =>
-    match SubtaskSpec.run c.spec.k {} impl with
-    | .error cls => [s!"{cls}@{c.spec.k}"]
+    match runIdx (SubtaskSpec.step c.spec.k) {} impl with
+    | .error (cls, i) => [s!"{cls}@{c.spec.k}#{i}"]
     | .ok m =>
       -- the end-of-life clause applies to traces that ran to their end
-      if impl.any (fun e => e == .panic || e == .abort) then [] else
+      if stopped then [] else
       match SubtaskSpec.complete c.spec.area m with
-      | .error cls => [s!"{cls}@{c.spec.k}"]
+      | .error cls => [s!"{cls}@{c.spec.k}#{impl.length}"]
       | .ok () => []
   -- C18: registration / delivery / unregistration, per waitable handle
   let perHandle := (WaitableSpec.handles impl).flatMap fun w =>
-    match WaitableSpec.run w {} impl with
-    | .error cls => [s!"waitable:{cls}@h{w}"]
+    match runIdx (WaitableSpec.step w) {} impl with
+    | .error (cls, i) => [s!"waitable:{cls}@h{w}#{i}"]
     | .ok m =>
-      if impl.any (fun e => e == .panic || e == .abort) then [] else
+      if stopped then [] else
       match WaitableSpec.complete m with
-      | .error cls => [s!"waitable:{cls}@h{w}"]
+      | .error cls => [s!"waitable:{cls}@h{w}#{impl.length}"]
       | .ok () => []
+  -- refinement replay of the PROVED step functions along the implementation's trace (Async/Refine.lean):
+  -- `CallSys.step` (C21) and `GSys.step subtaskOps` (C18), harness-executor modes only
+  let refine := match sc.mode with
+    | .export => []
+    | .cabi v => sc.calls.flatMap fun c =>
+      (match Refine.replayCall c.spec v impl with
+        | some (i, _) => [s!"callsys:diverges@{c.spec.k}#{i}"]
+        | none => []) ++
+      (match Refine.replayOp c.spec v impl with
+        | some (i, _) => [s!"gsys:diverges@{c.spec.k}#{i}"]
+        | none => [])
   let taskRefs := [1, 2].flatMap fun t =>
-    if impl.any (fun e => e == .panic || e == .abort) then [] else
+    if stopped then [] else
     if WaitableSpec.cloneBalance t impl != 0 then [s!"waitable:task-ref-leaked@t{t}"] else []
   let host := (Host.follow impl).map fun r => s!"host:{r}@-"
   let anomalies := impl.filterMap fun e => match e with
@@ -97,7 +122,7 @@ def specVerdict (sc : Script) (impl : List Ev) : List String :=
     | some (.endTok (some l) errs) => (if l != 0 then [s!"leak:{l}@-"] else []) ++ (if errs != 0 then [s!"alloc-errors:{errs}@-"] else [])
     | some (.endTok none errs) => if errs != 0 then [s!"alloc-errors:{errs}@-"] else []
     | _ => ["malformed-end@-"]
-  perCall ++ perHandle ++ taskRefs ++ host ++ anomalies ++ endTok
+  perCall ++ perHandle ++ refine ++ taskRefs ++ host ++ anomalies ++ endTok
 
 def handle (line : String) : String :=
   let parts := line.splitOn "\t"
